@@ -70,7 +70,7 @@ Qed.
 
 (* never earlier, never later: a burst is emitted only during the tick of its own frame; stale ones are strictly in the past *)
 Definition timely (h : qhist) : Prop :=
-  Forall (fun fm => oz (t_fn (snd fm)) = fst fm) (h_emitted h) /\ Forall (fun fm => oz (t_fn (snd fm)) < fst fm) (h_stale h).
+  Forall (fun fm => is_due (fst fm) (snd fm) = true) (h_emitted h) /\ Forall (fun fm => is_behind (fst fm) (snd fm) = true) (h_stale h).
 Lemma qstep_timely h op : timely h -> timely (qstep h op).
 Proof.
   intros [H1 H2]. destruct op as [d|fn| | |v]; cbn [qstep]; try (split; assumption).
@@ -91,9 +91,9 @@ Qed.
    the future ones - and only they - stay queued *)
 Theorem tick_exact h fn : x_run (h_trx h) = true ->
   let h' := qstep h (QTick fn) in
-  h_emitted h' = h_emitted h ++ map (fun m => (fn, m)) (filter (fun m => oz (t_fn m) =? fn) (x_q (h_trx h)))
-  /\ h_stale h' = h_stale h ++ map (fun m => (fn, m)) (filter (fun m => oz (t_fn m) <? fn) (x_q (h_trx h)))
-  /\ x_q (h_trx h') = filter (fun m => fn <? oz (t_fn m)) (x_q (h_trx h)).
+  h_emitted h' = h_emitted h ++ map (fun m => (fn, m)) (filter (is_due fn) (x_q (h_trx h)))
+  /\ h_stale h' = h_stale h ++ map (fun m => (fn, m)) (filter (is_behind fn) (x_q (h_trx h)))
+  /\ x_q (h_trx h') = filter (is_ahead fn) (x_q (h_trx h)).
 Proof.
   intros Hr. cbn [qstep]. rewrite Hr. pose proof (part_spec fn (x_q (h_trx h))) as P.
   destruct (part fn (x_q (h_trx h))) as [[d e] w]. destruct P as [_ [_ [_ [_ [-> [-> ->]]]]]]. cbn. auto.
@@ -127,7 +127,7 @@ Lemma tick_loop_queue fn : 0 <= fn -> forall n i trxs draws out, Forall wf_trx t
   let '(trxs', _, _) := tick_loop n i trxs fn draws out in
   forall k t, nth_error trxs k = Some t ->
     exists t', nth_error trxs' k = Some t' /\
-      x_q t' = (if (i <=? k)%nat && x_run t then filter (fun m => fn <? oz (t_fn m)) (x_q t) else x_q t)
+      x_q t' = (if (i <=? k)%nat && x_run t then filter (is_ahead fn) (x_q t) else x_q t)
       /\ x_run t' = x_run t /\ x_ver t' = x_ver t /\ x_rx t' = x_rx t /\ x_tx t' = x_tx t /\ x_fh t' = x_fh t /\ x_cfg t' = x_cfg t.
 Proof.
   intros Hfn. induction n as [|n IH]; intros i trxs draws out Hw Hlen; cbn [tick_loop].
@@ -172,7 +172,7 @@ Theorem tick_queues w fn draws : wf_world w -> 0 <= fn ->
   let '(w', _, _) := tick w fn draws in
   forall k t, nth_error (w_trx w) k = Some t ->
     exists t', nth_error (w_trx w') k = Some t' /\
-      x_q t' = (if x_run t then filter (fun m => fn <? oz (t_fn m)) (x_q t) else x_q t)
+      x_q t' = (if x_run t then filter (is_ahead fn) (x_q t) else x_q t)
       /\ x_run t' = x_run t /\ x_ver t' = x_ver t /\ x_rx t' = x_rx t /\ x_tx t' = x_tx t /\ x_fh t' = x_fh t /\ x_cfg t' = x_cfg t.
 Proof.
   intros Hw Hfn. unfold tick.
